@@ -581,7 +581,63 @@ def _bracket_report(w):
     cls.report = report
 
 
-def run_child_forked(child_args, world, plan, simpid, clock_base):
+def fresh_runner_modules():
+    """In a forked child: forget every zope.testrunner module and import the package again, so
+    that no module-level state of the parent (caches, flags, objects of the parent's world)
+    survives into the child - as in a really exec()ed interpreter.  Returns (package, recording
+    runner class)."""
+    import importlib
+    for k in [k for k in sys.modules
+              if k == 'zope.testrunner' or k.startswith('zope.testrunner.')]:
+        del sys.modules[k]
+    importlib.invalidate_caches()
+    # (compiled code of the runner's modules is kept in a per-lane cache directory outside
+    # every source tree; nothing else ever writes bytecode)
+    pyc = os.environ.get('VSIM_PYC_DIR')
+    old = sys.dont_write_bytecode, sys.pycache_prefix
+    if pyc:
+        sys.dont_write_bytecode, sys.pycache_prefix = False, pyc
+    try:
+        pkg = importlib.import_module('zope.testrunner')
+        rmod = importlib.import_module('zope.testrunner.runner')
+    finally:
+        sys.dont_write_bytecode, sys.pycache_prefix = old
+    base = rmod.Runner
+
+    class FreshRecordingRunner(base):
+        instances = []
+
+        def __init__(self, *a, **kw):
+            base.__init__(self, *a, **kw)
+            FreshRecordingRunner.instances.append(self)
+    rmod.Runner = FreshRecordingRunner
+    _PRISTINE.clear()
+    return pkg, FreshRecordingRunner
+
+
+_DIRTY = False     # the runner's modules have been used by an execution of this process
+
+
+def prepare():
+    """Give the next execution freshly imported runner modules if an earlier execution of this
+    process used them: every execution stands for a new interpreter, no module-level state may
+    leak from one to the next.  Engines that patch runner modules themselves (find.os,
+    threadsupport.*) call this before they do."""
+    global _DIRTY, R, ZF, ZSH, ZST, RecordingRunner
+    if not _DIRTY:
+        return
+    _DIRTY = False
+    pkg, rec = fresh_runner_modules()
+    import importlib
+    R = importlib.import_module('zope.testrunner.runner')
+    ZF = importlib.import_module('zope.testrunner.find')
+    ZSH = importlib.import_module('zope.testrunner.shuffle')
+    ZST = importlib.import_module('zope.testrunner.statistics')
+    RecordingRunner = rec
+    _scan_pristine()
+
+
+def run_child_forked(child_args, world, plan, simpid, clock_base, fresh=False):
     """Run the real runner for one layer in a forked process; return (tape, wait status)."""
     r, w = os.pipe()
     with warnings.catch_warnings():
@@ -594,9 +650,12 @@ def run_child_forked(child_args, world, plan, simpid, clock_base):
             signal.alarm(60)
             # a real child is a fresh interpreter
             purge_world_modules()
+            pkg, Rec = sys.modules['zope.testrunner'], RecordingRunner
+            if fresh:
+                pkg, Rec = fresh_runner_modules()
             clk = Clock(base=clock_base)
             install_seams(types.SimpleNamespace(clock=clk), real=True)
-            ZF.os = os
+            sys.modules['zope.testrunner.find'].os = os
             rt = simrt.install(world, plan, simpid,
                                sink=lambda ev: _tape_write(w, b'T', json.dumps(ev).encode()))
             out = TapeStream(w, b'O')
@@ -606,14 +665,14 @@ def run_child_forked(child_args, world, plan, simpid, clock_base):
             rt.orig_stdout = out
             rt.orig_stderr = out     # SubProcess.global_setup aliases stderr to stdout
             rt.real_stderr = err
-            RecordingRunner.instances[:] = []
+            Rec.instances[:] = []
             _bracket_report(w)
             try:
-                failed = zope.testrunner.run_internal(None, list(child_args))
+                failed = pkg.run_internal(None, list(child_args))
                 code = int(bool(failed))
-                if RecordingRunner.instances:
+                if Rec.instances:
                     _tape_write(w, b'R', json.dumps(
-                        runner_truth(RecordingRunner.instances[-1])).encode())
+                        runner_truth(Rec.instances[-1])).encode())
             except SystemExit as e:
                 code = e.code if isinstance(e.code, int) else 1
             except BaseException:
@@ -623,10 +682,10 @@ def run_child_forked(child_args, world, plan, simpid, clock_base):
                     sys.stderr.write(traceback.format_exc())
                 except Exception:
                     pass
-                if RecordingRunner.instances:
+                if Rec.instances:
                     try:
                         _tape_write(w, b'R', json.dumps(
-                            runner_truth(RecordingRunner.instances[-1])).encode())
+                            runner_truth(Rec.instances[-1])).encode())
                     except Exception:
                         pass
                 code = 1
@@ -708,7 +767,8 @@ class SimPopen:
         child_args = [env.script_parts[-1]] + list(args[i:])
         skew = env.knobs.get('child_skew') or []
         base = env.clock.now + (skew[(simpid - 1) % len(skew)] if skew else 0.0)
-        tape, status = run_child_forked(child_args, env.world, env.plan, simpid, base)
+        tape, status = run_child_forked(child_args, env.world, env.plan, simpid, base,
+                                        fresh=env.fresh_child)
         info = env.prepare_tape(layer, simpid, tape, status, child_args)
         cap = env.knobs.get('pipe_capacity', 65536)
         self.actor = Actor(s, layer, simpid, info['tape'], cap, env.on_child_event)
@@ -968,6 +1028,10 @@ class Env:
         self.processes = 1
         self.trace = None
         self.barrier_open = False
+        # one run in five starts its children with freshly imported runner modules (an
+        # exec()ed child shares no module state with its parent); knob overrides
+        fc = knobs.get('fresh_child')
+        self.fresh_child = bool(fc) if fc is not None else (spec.get('seed') or 0) % 5 == 0
 
     def processes_limit(self):
         return max(1, self.processes)
@@ -1314,7 +1378,7 @@ def install_seams(env, real=False):
             else:
                 setattr(mod, k, getattr(ns[base], attr))
     if not real:
-        zope.testrunner.runner.Runner = RecordingRunner
+        sys.modules['zope.testrunner.runner'].Runner = RecordingRunner
 
 
 def _scan_pristine():
@@ -1337,6 +1401,9 @@ def execute(spec, options, sched_mode=None, knobs=None, defaults=None, label='ma
             run_kwargs=None, found_suites=None):
     """One complete run of the real runner on spec's world under the simulator."""
     knobs = dict(spec.get('knobs') or {}, **(knobs or {}))
+    prepare()
+    global _DIRTY
+    _DIRTY = True
     env = Env(spec, sched_mode if sched_mode is not None else spec.get('sched'), knobs)
     purge_world_modules()
     rt = simrt.install(spec['world'], spec.get('plan', []), 0, None)
@@ -1385,7 +1452,7 @@ def execute(spec, options, sched_mode=None, knobs=None, defaults=None, label='ma
                 runner.run()
                 res.verdict = runner.failed
             else:
-                res.verdict = zope.testrunner.run_internal(
+                res.verdict = sys.modules['zope.testrunner'].run_internal(
                     defaults, list(args), **(run_kwargs or {}))
         except Hang as e:
             res.hang = str(e)
